@@ -22,7 +22,60 @@ fn raw(g: Grammar, text: &str, incomplete: bool) -> Option<(RawTree, usize)> {
     }
 }
 
-pub fn check_incomplete(g: Grammar, src: &str, st: &mut Stats, from: &str, junk: &str) -> Result<(), Fail> {
+/// Raw parse under a given memo configuration (the thread's configuration is restored afterwards).
+fn raw_cfg(g: Grammar, text: &str, incomplete: bool, capacity: Option<usize>, rec_key: bool) -> Option<(RawTree, usize)> {
+    sv::hooks::set_capacity(capacity);
+    sv::hooks::set_key_includes_recursion_flags(rec_key);
+    let r = raw(g, text, incomplete);
+    sv::hooks::set_capacity(sv::hooks::DEFAULT_CAPACITY);
+    sv::hooks::set_key_includes_recursion_flags(false);
+    r
+}
+
+/// Does listed finding K3 touch one of the parses this case consists of? True iff for one of them the production
+/// configuration (capacity 1024, production key) gives a result that differs from the unbounded table's, while the
+/// unbounded table gives the same result under both keys (the signature used by C02 / C12, per parse).
+fn k3_touches(g: Grammar, parses: &[(&str, bool)]) -> bool {
+    for (text, incomplete) in parses {
+        let production = raw_cfg(g, text, *incomplete, sv::hooks::DEFAULT_CAPACITY, false);
+        let unbounded = raw_cfg(g, text, *incomplete, None, false);
+        if production != unbounded {
+            let aware = raw_cfg(g, text, *incomplete, None, true);
+            if aware == unbounded {
+                return true;
+            }
+        }
+    }
+    false
+}
+
+/// `check_incomplete_inner`, with a failure re-judged against listed finding K3 (if `k3_listed`): the four parses a
+/// case compares (incomplete and strict on the whole text, strict on the covered prefix, incomplete with junk appended)
+/// run at the production memo capacity, where K3 lets evictions reject or cut short an input that the unbounded
+/// table parses in full. A failure is attributed to K3 only if one of these parses shows exactly that.
+pub fn check_incomplete(g: Grammar, src: &str, st: &mut Stats, from: &str, junk: &str, k3_listed: bool) -> Result<(), Fail> {
+    match check_incomplete_inner(g, src, st, from, junk) {
+        Ok(()) => Ok(()),
+        Err(f) => {
+            if k3_listed {
+                if let Ok((ppt, _)) = sv::pp_plain(src) {
+                    let text = ppt.text().to_string();
+                    let covered = raw(g, &text, true).map(|x| x.1).unwrap_or(0).min(text.len());
+                    let prefix = if text.is_char_boundary(covered) { text[..covered].to_string() } else { String::new() };
+                    let appended = sv::pp_plain(&format!("{}\n{}", src, junk)).map(|(t, _)| t.text().to_string()).unwrap_or_default();
+                    if k3_touches(g, &[(&text, true), (&text, false), (&prefix, false), (&appended, true)]) {
+                        st.known("K3");
+                        st.class("a parse of this case differs between the production memo capacity and the unbounded table (listed finding K3)");
+                        return Ok(());
+                    }
+                }
+            }
+            Err(f)
+        }
+    }
+}
+
+fn check_incomplete_inner(g: Grammar, src: &str, st: &mut Stats, from: &str, junk: &str) -> Result<(), Fail> {
     let detail = |extra: serde_json::Value| json!({"from": from, "grammar": format!("{:?}", g), "source": src, "info": extra});
     let (ppt, defs) = match sv::pp_plain(src) {
         Ok(x) => x,
@@ -121,6 +174,11 @@ impl Prop for C15 {
          (>= 10 leaves) with junk appended; distinct by digest of (grammar, text, junk)."
             .into()
     }
+    fn witness(&self, _ctx: &Ctx, f: &crate::findings::Finding) -> Result<bool, Fail> {
+        // K3 is the only finding listed for C15; its general witness (a capacity at which acceptance changes) shows
+        // whether the defect is still there
+        super::c17::memo_witness(f)
+    }
     fn assumptions(&self) -> Vec<String> {
         vec!["the appended junk starts on a new line and cannot continue the last description (closing brackets, closing keywords of constructs that are not open, bytes that start no token)".into()]
     }
@@ -136,23 +194,24 @@ impl Prop for C15 {
     }
     fn run(&self, ctx: &Ctx, campaign: &str, t: &mut Tape, st: &mut Stats) -> Result<(), Fail> {
         st.eval();
+        let k3 = ctx.findings.is_known("C15", "K3");
         match campaign {
             "corpus" => {
                 let i = t.raw() as usize % ctx.corpus.sv.len();
                 let f = &ctx.corpus.sv[i];
-                check_incomplete(Grammar::Sv, &f.text, st, &f.name, JUNK[i % JUNK.len()])?;
+                check_incomplete(Grammar::Sv, &f.text, st, &f.name, JUNK[i % JUNK.len()], k3)?;
             }
             "lib" => {
                 let i = t.raw() as usize % ctx.corpus.lib.len();
                 let f = &ctx.corpus.lib[i];
-                check_incomplete(Grammar::Lib, &f.text, st, &f.name, JUNK[i % JUNK.len()])?;
+                check_incomplete(Grammar::Lib, &f.text, st, &f.name, JUNK[i % JUNK.len()], k3)?;
             }
             "svgen" => {
                 let p = svgen::generate_mixed(t, &svgen::Cfg::default());
                 let mut f = Feats::default();
                 let text = p.render(t, &TriviaCfg::full(), &mut f);
                 let j = t.pick_str(JUNK);
-                check_incomplete(Grammar::Sv, &text, st, "svgen", j)?;
+                check_incomplete(Grammar::Sv, &text, st, "svgen", j, k3)?;
             }
             "mutants" => {
                 let base = if t.flip() {
@@ -163,13 +222,13 @@ impl Prop for C15 {
                 };
                 let m = mutate::mutate_text(&base, t);
                 let j = t.pick_str(JUNK);
-                check_incomplete(Grammar::Sv, &m, st, "mutant", j)?;
+                check_incomplete(Grammar::Sv, &m, st, "mutant", j, k3)?;
             }
             "soup" => {
                 let text = mutate::soup(t);
                 let j = t.pick_str(JUNK);
                 let g = if t.chance(1, 4) { Grammar::Lib } else { Grammar::Sv };
-                check_incomplete(g, &text, st, "soup", j)?;
+                check_incomplete(g, &text, st, "soup", j, k3)?;
             }
             _ => {
                 let mut text = libgen::generate(t);
@@ -177,7 +236,7 @@ impl Prop for C15 {
                     text = mutate::mutate_text(&text, t);
                 }
                 let j = t.pick_str(JUNK);
-                check_incomplete(Grammar::Lib, &text, st, "libgen", j)?;
+                check_incomplete(Grammar::Lib, &text, st, "libgen", j, k3)?;
             }
         }
         Ok(())
